@@ -54,7 +54,9 @@ PROGRAMS = {"U1": universes.ALL["U1"], "U3": universes.ALL["U3"], "W6": WIDE, "D
 
 
 def file_map(u, vm: dict[str, int]) -> dict:
-    return {p: (None if u.files[p][v] is None else (u.files[p][v], BASE_TIME + 3)) for p, v in vm.items()}
+    # owned clock, "preserving" discipline: a file's mtime is a function of (path, variant), so an edit always
+    # changes the mtime (same-second same-size edits are a documented mypy limitation, out of scope)
+    return {p: (None if u.files[p][v] is None else (u.files[p][v], BASE_TIME + 3 + 10 * v)) for p, v in vm.items()}
 
 
 def base_spec(root: str, u, cache: str | None, n_workers: int) -> dict:
@@ -152,7 +154,9 @@ def explore_program(job: dict) -> dict:
     drivers.write_tree(root, file_map(u, vm))
     drivers.install_fixture(root, u.fixture)
 
-    stack: list[tuple[list[int], list[int] | None]] = [([], None)]
+    stack: list[tuple[list[int], list[int] | None]] = [(list(p_), (list(e_) if e_ is not None else None))
+                                                        for p_, e_ in (job.get("start") or [([], None)])]
+    out["root_alternatives"] = []
     while stack:
         prefix, expect = stack.pop()
         if out["executions"] >= job["max_exec"]:
@@ -231,7 +235,9 @@ def explore_program(job: dict) -> dict:
         choices = prefix + [0] * (len(sizes) - len(prefix))
         for i in range(len(prefix), len(sizes)):
             for alt in range(1, sizes[i]):
-                if spent + 1 <= bound:
+                if job.get("collect_root") and not prefix:
+                    out["root_alternatives"].append((choices[:i] + [alt], sizes[: i + 1]))
+                elif spent + 1 <= bound:
                     stack.append((choices[:i] + [alt], sizes[: i + 1]))
     out["traces"] = len(out["traces"])
     shutil.rmtree(work, ignore_errors=True)
@@ -241,7 +247,7 @@ def explore_program(job: dict) -> dict:
 def make_jobs(ctx: Ctx) -> list[dict]:
     jobs = []
     if ctx.quick:
-        plan = [("U1", [2, 3], 2), ("U3", [2], 2), ("W6", [2], 1), ("D6", [2], 1)]
+        plan = [("U1", [2], 2), ("U1", [3], 1), ("U3", [2], 1), ("W6", [2], 1)]
     else:
         plan = [("U1", [1, 2, 3, 4], 3), ("U3", [1, 2, 3], 3), ("W6", [2, 3, 4], 2), ("D6", [2, 3], 2)]
     for pname, ns, bound in plan:
@@ -265,7 +271,13 @@ def make_jobs(ctx: Ctx) -> list[dict]:
     if ctx.thorough:
         jobs.append({"program": "W6", "n": 8, "bound": 0, "scenario": "cold", "store": "fs", "max_exec": 5,
                      "followups": False})
-    return seeded_order(jobs, ctx.seed)
+    uniq, seen = [], set()
+    for j in jobs:
+        k = repr(sorted(j.items(), key=lambda kv: kv[0]))
+        if k not in seen:
+            seen.add(k)
+            uniq.append(j)
+    return seeded_order(uniq, ctx.seed)
 
 
 def run(ctx: Ctx, jobs: list[dict] | None = None) -> Result:
@@ -275,11 +287,39 @@ def run(ctx: Ctx, jobs: list[dict] | None = None) -> Result:
     samples: list[Any] = []
     herr: list[str] = []
     per = []
-    # each execution is a coordinator + N workers: keep the number of concurrent instances moderate
-    for _i, job, st, val in pmap(explore_program, jobs, fresh=False, jobs=6, timeout=7200):
+    # Stage 1: the default schedule of every instance (also yields its choice points).  Stage 2: one work item per
+    # first deviation, exploring the subtree below it within the remaining bound.  (Workers are gated, so one
+    # execution keeps about one core busy whatever N is.)
+    stage1 = [dict(j, collect_root=True) for j in jobs]
+    stage2: list[dict] = []
+    results: list[tuple[dict, dict]] = []
+    for _i, job, st, val in pmap(explore_program, stage1, fresh=False, timeout=7200):
         if st != "ok":
             herr.append(f"job {job} failed: {val}")
             continue
+        results.append((job, val))
+        if job["bound"] >= 1:
+            for alt in val.get("root_alternatives", []):
+                stage2.append(dict({k: v for k, v in job.items() if k != "collect_root"}, start=[alt]))
+    for _i, job, st, val in pmap(explore_program, stage2, fresh=False, timeout=7200):
+        if st != "ok":
+            herr.append(f"job {job} failed: {val}")
+            continue
+        results.append((job, val))
+    merged: dict[str, dict] = {}
+    for job, val in results:
+        key = repr({k: job.get(k) for k in ("program", "n", "bound", "scenario", "store", "edit")})
+        m = merged.setdefault(key, {"job": job, "executions": 0, "traces": 0, "overlap_execs": 0, "warm_checks": 0,
+                                    "complete": True, "max_points": 0, "violations": [], "samples": [], "herr": []})
+        for k in ("executions", "traces", "overlap_execs", "warm_checks"):
+            m[k] += val[k]
+        m["complete"] = m["complete"] and val["complete"]
+        m["max_points"] = max(m["max_points"], val["max_points"])
+        m["violations"] += val["violations"]
+        m["samples"] += val["samples"]
+        m["herr"] += val["herr"]
+    for m in merged.values():
+        job, val = m["job"], m
         tot["executions"] += val["executions"]
         tot["distinct_traces"] += val["traces"]
         tot["overlap"] += val["overlap_execs"]
